@@ -50,9 +50,25 @@ pub fn filter_flags(c: &RefCfg) -> Result<Vec<u8>, String> {
     Ok(v)
 }
 
+/// Raw LZMA2 stream made of uncompressed chunks of `piece` bytes (1..=65536; the last one shorter): control 0x01 for the
+/// first chunk (dictionary reset), 0x02 for the others, size field = size - 1 (0xFFFF for a full 64 KiB chunk), end marker.
+pub fn lzma2_unc(data: &[u8], piece: usize) -> Vec<u8> {
+    let piece = piece.clamp(1, 65536);
+    let mut out = Vec::with_capacity(data.len() + data.len() / piece * 3 + 4);
+    for (i, ch) in data.chunks(piece).enumerate() {
+        out.push(if i == 0 { 0x01 } else { 0x02 });
+        out.push(((ch.len() - 1) >> 8) as u8);
+        out.push((ch.len() - 1) as u8);
+        out.extend_from_slice(ch);
+    }
+    out.push(0);
+    out
+}
+
 /// One .xz stream holding `data` split into blocks at `cuts`; `hc` / `hu`: write the optional compressed /
-/// uncompressed size fields into every block header.
-pub fn xz_stream(data: &[u8], cuts: &[usize], c: &RefCfg, hc: bool, hu: bool) -> Result<Vec<u8>, String> {
+/// uncompressed size fields into every block header; `unc_piece` > 0: the LZMA2 payload consists of uncompressed chunks
+/// of that many bytes (no pre-filters) instead of the reference encoder's output.
+pub fn xz_stream(data: &[u8], cuts: &[usize], c: &RefCfg, hc: bool, hu: bool, unc_piece: usize) -> Result<Vec<u8>, String> {
     let cid = check_id(&c.check);
     let mut out = Vec::new();
     out.extend_from_slice(&strict::XZ_HEADER_MAGIC);
@@ -80,7 +96,7 @@ pub fn xz_stream(data: &[u8], cuts: &[usize], c: &RefCfg, hc: bool, hu: bool) ->
         let mut rc = c.clone();
         rc.flush_at.clear();
         rc.sync_at.clear();
-        let payload = refb::enc_raw_lzma2(blk, &rc)?;
+        let payload = if unc_piece > 0 && c.filters.is_empty() { lzma2_unc(blk, unc_piece) } else { refb::enc_raw_lzma2(blk, &rc)? };
         let mut h = vec![0u8, (nf as u8 - 1) | if hc { 0x40 } else { 0 } | if hu { 0x80 } else { 0 }];
         if hc {
             vli_encode(payload.len() as u64, &mut h);
